@@ -172,6 +172,14 @@ def run(ctx, shared=True):
                    "for a sampler without checkpoint support (the branch that only warns) the block still replaces /flow and /aspire_config while /checkpoint is left in place: "
                    "the file then pairs the new flow and a configuration naming that sampler with the particles an earlier SMC run weighted under the previous flow", disc="unsupported")
 
+        # ---- the window before the first checkpoint: a run that starts a new population (no resume) replaces /flow before it samples and writes its first
+        #      checkpoint only at its first cadence iteration; a checkpoint an earlier run left in the file stays there in between, next to the new flow
+        ctx.decide(drops_checkpoint([W]), "C14.flow", sp.ident, loc_of(sp, W),
+                   "the block that replaces /flow before sampling also removes a checkpoint left by an earlier run",
+                   "the block replaces /flow (and the configuration) before the sampler starts and leaves /checkpoint in place: a run that is not a resume and dies before its first "
+                   "checkpoint leaves the new flow next to the previous run's population, and resume_from_file continues that population under a proposal it was not weighted under",
+                   disc="window")
+
     from ..report import reuse
     from . import c19
     # ---- fit(): the flow stored in the file is replaced only when the caller asks (overwrite), and a replacement must not
